@@ -31,7 +31,7 @@ ASSUMPTIONS = [
 ]
 
 
-def chain_specs(L, sav, rec, mixin_at, raise_at=None):
+def chain_specs(L, sav, rec, mixin_at, raise_at=None, mixin_first=False):
     specs = []
     if mixin_at is not None:
         specs.append({'name': 'U', 'kind': 'obj', 'bases': [], 'params': [], 'extra': False, 'registered': False,
@@ -39,7 +39,8 @@ def chain_specs(L, sav, rec, mixin_at, raise_at=None):
                       'sweeten': [('op', ('set', 'from_mixin', ('sv', 1)))]})
     for i in range(L):
         params = [{'name': 'p%d' % j, 'type': 'int', 'required': True} for j in range(i + 1)]
-        s = {'name': 'C%d' % i, 'kind': 'obj', 'bases': (['C%d' % (i - 1)] if i else []) + (['U'] if mixin_at == i else []),
+        s = {'name': 'C%d' % i, 'kind': 'obj', 'bases': ((['U'] if mixin_at == i else []) + (['C%d' % (i - 1)] if i else [])) if mixin_first else
+             ((['C%d' % (i - 1)] if i else []) + (['U'] if mixin_at == i else [])),
              'params': params, 'extra': False, 'registered': True}
         if i in sav:
             s['savorize'] = [('raise',)] if raise_at == i else [('if', ('has', 'noise'), [('remove', 'noise')], [])]
@@ -103,9 +104,10 @@ def tie(ctx, model_ok=True):
             for rec in itertools.chain.from_iterable(itertools.combinations(range(L), r) for r in range(L + 1)):
                 if L == Lmax and ctx['tier'] == 'quick' and len(rec) > 1:
                     continue
-                for mixin_at in [None] + list(range(L)):
+                # the unregistered mix-in listed after the registered base, and (for classes that have a base) before it
+                for mixin_at, mixin_first in [(None, False)] + [(m, f) for m in range(L) for f in ((False, True) if m else (False,))]:
                     for raise_at in [None] + ([sav[0]] if sav and mixin_at is None and not rec else []):
-                        specs = chain_specs(L, set(sav), set(rec), mixin_at, raise_at)
+                        specs = chain_specs(L, set(sav), set(rec), mixin_at, raise_at, mixin_first)
                         model = classgen.Model(specs)
                         regterm = None
                         for i in range(L):
@@ -132,7 +134,7 @@ def tie(ctx, model_ok=True):
                                                            'case': {'specs': loadprop._clean(specs), 'type': repr(tyspec), 'text': text}})
                                 if trace != want:
                                     res['failing'].append({'signature': f'savorize-trace:{pos}',
-                                                           'what': f'document for C{i} at {pos}: savorize hooks ran {trace}, rule says {want} (hooks defined on {["C%d" % x for x in sav]}, mix-in at {mixin_at})',
+                                                           'what': f'document for C{i} at {pos}: savorize hooks ran {trace}, rule says {want} (hooks defined on {["C%d" % x for x in sav]}, mix-in at {mixin_at}{' listed first' if mixin_first else ''})',
                                                            'case': {'specs': loadprop._clean(specs), 'type': repr(tyspec), 'text': text}})
                                 for e in c.log:
                                     if e[0] == 'recognize' and e[1] != e[2]:
@@ -160,7 +162,7 @@ def tie(ctx, model_ok=True):
                                         [dict(s, savorize=s.get('sweeten')) for s in specs], 'C%d' % i)]
                                     if derr is not None or strace != swant:
                                         res['failing'].append({'signature': f'sweeten-trace:{wrap}',
-                                                               'what': f'dumping a C{i} ({wrap}): sweeten hooks ran {strace} / {derr!r}, rule says {swant} (hooks defined on {["C%d" % x for x in sav]}, mix-in at {mixin_at})',
+                                                               'what': f'dumping a C{i} ({wrap}): sweeten hooks ran {strace} / {derr!r}, rule says {swant} (hooks defined on {["C%d" % x for x in sav]}, mix-in at {mixin_at}{' listed first' if mixin_first else ''})',
                                                                'case': {'specs': loadprop._clean(specs), 'dump': 'C%d' % i, 'wrap': wrap}})
                             if regterm is None:
                                 regterm = model.reg_term()
